@@ -104,6 +104,12 @@ example : matchFilterRe "upper(s)+upper(s)".toList = none := by decide
 example : matchFilterRe "add(double(n), m)".toList = some ("add".toList, "double(n), m".toList) := by decide
 example : matchFilterRe "f(')')".toList = some (['f'], "')'".toList) := by decide
 
+/-- an argument that is a variable name is the variable — also for the one-letter names `t` and `f`, which the pinned code read as the booleans
+    strconv.ParseBool accepts (so `money(f)` received `false`) -/
+theorem argument_named_f_is_the_variable (P : Params) (s : Stack) (v : Val) (h : s.resolve P.cfg ['f'] = .ok (some v)) :
+    resolveArgument P s ['f'] = .ok v := by
+  simp [resolveArgument, trimSpace, trimLeft, trimRight, isSpace, atoi, isDigit, parseSimpleFloat, splitFirst, List.span, List.span.loop, parseBool, h]
+
 /-- PARTIAL statement of "same value wherever it is allowed": it holds for operator expressions (above) and for plain paths … -/
 theorem path_same_in_text_and_attr (P : Params) (s : Stack) (e : Str) (v : Val) (hr : routesToPipe e = false)
     (hni : Generated.containsInterpolation e = false) (hno : (hasPrefix e ['{'] && hasSuffix e ['}']) = false) (ht : trimSpace e = e)
